@@ -11,8 +11,11 @@ from harness.props.c13_world import (
     LEAF_STR,
     SPECIAL_ATOMS,
     atom_key,
+    hint_vars,
     leaf,
     model_ty,
+    subst,
+    var,
 )
 
 FIELD_NAMES = ["a", "b", "c", "d", "e", "f1", "g", "h", "data", "ctx", "x", "y"]
@@ -99,6 +102,7 @@ class Gen:
         #   light - (history mode only) the destination is mostly a copy of the source: few renamed / added fields,
         #           so that a request *without* any recipe succeeds often and recipes are genuine overrides
         self.light = history and rng.random() < 0.5
+        self._perm = {}       # generic destination class id -> position of each source variable in its declaration
 
     # -- small helpers -------------------------------------------------------
     def fresh_int(self):
@@ -156,7 +160,11 @@ class Gen:
             n = 0 if self.chance(pf) else rng.randint(0, 3)
             return {"v": "seq", "kind": kind, "xs": [self.value(ty["a"], by_id) for _ in range(n)]}
         if t == "dict":
-            keys = [atom_json(f"k{i}") for i in range(0 if self.chance(pf) else rng.randint(0, 3))]
+            n = 0 if self.chance(pf) else rng.randint(0, 3)
+            if ty["k"] == leaf(LEAF_INT):         # keys of a generic class's Dict[Ti, Tj] follow the key argument
+                keys = [atom_json(k) for k in rng.sample(range(-2, 9), n)]
+            else:
+                keys = [atom_json(f"k{i}") for i in range(n)]
             return {"v": "dict", "kvs": [[k, self.value(ty["v"], by_id)] for k in keys]}
         raise ValueError(t)
 
@@ -251,8 +259,143 @@ class Gen:
                 fid = "_" + name
             fields.append({"id": fid, "ty": self.src_type(depth, kind_pool, kind)})
         c = self.new_class("src", kind, fields, generic)
+        if generic is None and n and kind in GENERIC_KINDS and self.chance(0.2):
+            self.make_generic(c, depth, kind_pool)
         self.maybe_falsy(c)
         return c
+
+    # -- generic classes with several type variables ----------------------------------------
+    def clone_class(self, c):
+        """a new class with the same kind and field declarations (a duck-compatible sibling)"""
+        d = copy.deepcopy(c)
+        d["id"] = len(self.classes)
+        d["name"] = f"{'S' if d['role'] == 'src' else 'D'}{d['id']}"
+        self.classes.append(d)
+        return d
+
+    def generic_args(self, nv, depth, kind_pool):
+        """actual arguments of a generic source class: leaves, or small models - often siblings declaring the same
+        fields, so that a coercer between the 'wrong' pair of arguments exists as well"""
+        rng = self.rng
+        args, sibling = [], None
+        models = depth > 0 and self.chance(0.65)
+        for _ in range(nv):
+            if models and self.chance(0.85):
+                if sibling is not None and self.chance(0.7):
+                    m = self.clone_class(sibling)
+                else:
+                    m = sibling = self.src_model(0, kind_pool)
+                args.append(model_ty(m["id"]))
+            else:
+                args.append(leaf(rng.choice([LEAF_INT, LEAF_INT, LEAF_INT, LEAF_STR, LEAF_BOOL, LEAF_FLOAT])))
+        return args
+
+    def gen_hint(self, nv, args, depth, kind_pool, kind, nested=True):
+        """a field annotation over the type variables T0..T(nv-1): the variables are drawn in random order, so the
+        order of appearance inside a hint is independent of the order `Generic[...]` declares them in"""
+        rng = self.rng
+        order = rng.sample(range(nv), nv)
+        r = rng.random()
+        if nv >= 2 and r < 0.30:
+            keyable = [i for i in order if args[i] in (leaf(LEAF_INT), leaf(LEAF_STR))]
+            k = keyable[0] if keyable and self.chance(0.85) else None
+            v = next(i for i in order if i != k)
+            vh = var(v) if self.chance(0.7) else {"t": "iter", "o": self.iter_origin(kind), "a": var(v)}
+            return {"t": "dict", "k": var(k) if k is not None else leaf(LEAF_STR), "v": vh}
+        if nested and r < 0.62:
+            # another generic class, parametrized by the variables of this one
+            ne = 2 if nv >= 2 or self.chance(0.5) else 1
+            ahints = [var(i) for i in order[:ne]]
+            while len(ahints) < ne:
+                ahints.append(leaf(rng.choice([LEAF_INT, LEAF_STR])))
+            if self.chance(0.2):
+                j = rng.randrange(ne)
+                ahints[j] = {"t": "iter", "o": self.iter_origin(kind), "a": ahints[j]}
+            ekind = rng.choice([k for k in kind_pool if k in GENERIC_KINDS] or [kind])
+            eargs = [subst(h, args) for h in ahints]
+            names = rng.sample(FIELD_NAMES, rng.randint(ne, ne + 1))
+            fields = []
+            for i, name in enumerate(names):
+                h = var(i) if i < ne else self.gen_hint(ne, eargs, 0, kind_pool, ekind, nested=False)
+                fields.append({"id": name, "hint": h, "ty": subst(h, eargs)})
+            e = self.new_class("src", ekind, fields)
+            e["tvars"], e["targs"] = ne, eargs
+            return {"t": "model", "cls": e["id"], "inst": 0, "args": ahints}
+        i = order[0]
+        if r < 0.75:
+            return var(i)
+        if r < 0.85:
+            return {"t": "opt", "a": var(i)}
+        return {"t": "iter", "o": self.iter_origin(kind), "a": var(i)}
+
+    def make_generic(self, c, depth, kind_pool):
+        """turns a freshly drawn source class into `class C(Generic[T0, .., T(nv-1)])` instantiated once in the case:
+        one to three of its fields are re-declared through hints over the type variables"""
+        rng = self.rng
+        nv = rng.choice([1, 2, 2, 2, 3])
+        args = self.generic_args(nv, depth, kind_pool)
+        c["tvars"], c["targs"] = nv, args
+        k = rng.randint(1, min(3, len(c["fields"])))
+        for f in rng.sample(c["fields"], k):
+            h = self.gen_hint(nv, args, depth, kind_pool, c["kind"])
+            f["hint"], f["ty"] = h, subst(h, args)
+        # classes are materialised dependencies first (ordered_classes); the arguments / nested generic classes were
+        # appended after `c`
+
+    def opt_vars(self, c, by_id):
+        """type variables of a generic class that end up directly below Optional (here or in a generic class the
+        variable is passed on to): their destination argument must not be Any (typing collapses Optional[Any])"""
+        out = set()
+
+        def walk(h, under_opt):
+            t = h["t"]
+            if t == "var":
+                if under_opt:
+                    out.add(h["i"])
+            elif t in ("opt", "iter"):
+                walk(h["a"], t == "opt")
+            elif t == "dict":
+                walk(h["k"], False)
+                walk(h["v"], False)
+            elif t == "model" and "args" in h:
+                inner = self.opt_vars(by_id[h["cls"]], by_id)
+                for j, a in enumerate(h["args"]):
+                    walk(a, j in inner)
+        for f in c["fields"]:
+            if f.get("hint") is not None:
+                walk(f["hint"], False)
+        return out
+
+    def dst_hint(self, h, xs, src_by_id, dst_kind_pool, plan, path, lkind):
+        """destination counterpart of a source hint: (hint over the SOURCE variable numbering, resolved type);
+        `xs` are the destination arguments of the source variables"""
+        t = h["t"]
+        rec = lambda x: self.dst_hint(x, xs, src_by_id, dst_kind_pool, plan, path, lkind)  # noqa: E731
+        if t == "var":
+            return h, xs[h["i"]]
+        if t == "opt":
+            hh, ty = rec(h["a"])
+            return {"t": "opt", "a": hh}, {"t": "opt", "a": ty}
+        if t == "iter":
+            o = self.iter_origin(lkind) if self.chance(0.5) or lkind == "pydantic" or self.pyd else h["o"]
+            hh, ty = rec(h["a"])
+            return {"t": "iter", "o": o, "a": hh}, {"t": "iter", "o": o, "a": ty}
+        if t == "dict":
+            (kh, kt), (vh, vt) = rec(h["k"]), rec(h["v"])
+            return {"t": "dict", "k": kh, "v": vh}, {"t": "dict", "k": kt, "v": vt}
+        if t == "model" and "args" in h:
+            sub = [rec(a) for a in h["args"]]
+            e2 = self.dst_model(src_by_id[h["cls"]], src_by_id, dst_kind_pool, plan, path, top=False,
+                                under_pyd=lkind == "pydantic", targs_dst=[ty for _, ty in sub])
+            if e2.get("tvars"):
+                perm = self._perm[e2["id"]]
+                args2 = [None] * len(sub)
+                for i, (hh, _) in enumerate(sub):
+                    args2[perm[i]] = hh
+                return {"t": "model", "cls": e2["id"], "inst": 0, "args": args2}, model_ty(e2["id"])
+            return model_ty(e2["id"]), model_ty(e2["id"])
+        ty = self.retype(h, src_by_id, dst_kind_pool, plan, path, lkind, None, True)
+        return ty, ty
 
     def maybe_falsy(self, c):
         """a model class whose instances are falsy: it defines __bool__ (-> False) or __len__ (-> 0)"""
@@ -314,7 +457,7 @@ class Gen:
                 return leaf(LEAF_ANY)
         return ty
 
-    def dst_model(self, src, src_by_id, dst_kind_pool, plan, path, top, under_pyd=False):
+    def dst_model(self, src, src_by_id, dst_kind_pool, plan, path, top, under_pyd=False, targs_dst=None):
         rng = self.rng
         kind = rng.choice(dst_kind_pool)
         # pydantic validates (and converts) the fields of nested models of every kind as well
@@ -323,6 +466,32 @@ class Gen:
         edits = []
         used = set()
         generic = src.get("generic") if kind in GENERIC_KINDS else None
+        xs, xmarks, perm = None, [], None
+        if src.get("tvars"):
+            # destination arguments of the source's type variables: given by the owner of a nested generic class,
+            # else each source argument is retyped once (nested models get their destination class, leaves may
+            # become str - served by a user coercer - or Any)
+            xs = targs_dst
+            if xs is None:
+                no_any = self.opt_vars(src, src_by_id) if lkind != "pydantic" else set()
+                xs = []
+                for i, a in enumerate(src["targs"]):
+                    x = self.retype(a, src_by_id, dst_kind_pool, plan, path + [f"T{i}"], lkind, xmarks, True)
+                    if a == leaf(LEAF_INT) and x == a and lkind != "pydantic" and self.chance(0.3):
+                        # arguments are retyped more often than ordinary leaves: the coercers of two arguments
+                        # then differ (user coercer / as is), and so do the results when arguments are mixed up
+                        x = leaf(LEAF_STR)
+                        xmarks.append("int->str")
+                    if a["t"] == "model" and i not in no_any and lkind != "pydantic" and self.chance(0.12):
+                        x = leaf(LEAF_ANY)        # the model passes as is
+                    if i in no_any and x == leaf(LEAF_ANY):
+                        x = a
+                    xs.append(x)
+            if kind in GENERIC_KINDS and lkind != "pydantic":
+                # the destination declares its variables in its own order
+                perm = list(range(src["tvars"]))
+                if self.chance(0.5):
+                    rng.shuffle(perm)
         for f in src["fields"]:
             r = rng.random()
             fid = f["id"].lstrip("_") if kind != "attrs" else f["id"]
@@ -339,7 +508,14 @@ class Gen:
                 edits.append(("drop", f["id"]))
                 continue
             marks = []
-            ty = self.retype(f["ty"], src_by_id, dst_kind_pool, plan, path + [fid], lkind, marks)
+            hint2 = None
+            if xs is not None and f.get("hint") is not None:
+                hint2, ty = self.dst_hint(f["hint"], xs, src_by_id, dst_kind_pool, plan, path + [fid], lkind)
+                marks = list(xmarks)
+                if perm is None or not hint_vars(hint2):
+                    hint2 = None
+            else:
+                ty = self.retype(f["ty"], src_by_id, dst_kind_pool, plan, path + [fid], lkind, marks)
             if lkind == "pydantic":
                 ty = self.untyped_leaves(ty)
             if r < (0.17 if self.light else 0.30):
@@ -350,7 +526,7 @@ class Gen:
                 edits.append(("rename", f["id"], fid))
             if fid.lstrip("_") in used:
                 continue
-            if ty["t"] == "leaf" and r > 0.9 and lkind != "pydantic":
+            if ty["t"] == "leaf" and r > 0.9 and lkind != "pydantic" and hint2 is None:
                 if ty["n"] != LEAF_ANY and self.chance(0.5):
                     ty = leaf(LEAF_ANY)
                 elif ty["n"] == LEAF_BOOL and kind != "pydantic":
@@ -362,6 +538,8 @@ class Gen:
             if marks and lkind != "pydantic":
                 edits.append(("retype_inner", f["id"], fid))
             nf = {"id": fid, "ty": ty}
+            if hint2 is not None:
+                nf["hint"] = self.rename_vars(hint2, perm)
             if kind in ("attrs", "pydantic") and self.chance(0.1) and not fid.startswith("_"):
                 nf["alias"] = fid + "_al"
             fields.append(nf)
@@ -390,10 +568,28 @@ class Gen:
             if kind in ("dataclass", "attrs") and self.chance(0.15):
                 f["kw_only"] = True
         d = self.new_class("dst", kind, fields, generic)
+        if perm is not None:
+            d["tvars"] = len(perm)
+            d["targs"] = [None] * len(perm)
+            for i, x in enumerate(xs):
+                d["targs"][perm[i]] = x
+            self._perm[d["id"]] = perm
         self.maybe_falsy(d)
         self.fix_default_order(d)
         plan.append({"src": src["id"], "dst": d["id"], "edits": edits, "top": top})
         return d
+
+    def rename_vars(self, h, perm):
+        t = h["t"]
+        if t == "var":
+            return var(perm[h["i"]])
+        if t in ("opt", "iter"):
+            return {**h, "a": self.rename_vars(h["a"], perm)}
+        if t == "dict":
+            return {**h, "k": self.rename_vars(h["k"], perm), "v": self.rename_vars(h["v"], perm)}
+        if t == "model" and "args" in h:
+            return {**h, "args": [self.rename_vars(a, perm) for a in h["args"]]}
+        return h
 
     # -- predicates --------------------------------------------------------------
     def dst_pred(self, dst_cls, fid):
@@ -581,7 +777,7 @@ class Gen:
                 plain = True
         if plain:
             apis += ["get_converter", "get_converter", "retort.get_converter"]
-            if top_src["kind"] != "typeddict" and top_src.get("generic") is None and sig["ret"]["t"] == "model" \
+            if top_src["kind"] != "typeddict" and top_src.get("generic") is None and not top_src.get("tvars") and sig["ret"]["t"] == "model" \
                     and self.chance(0.3):
                 apis = ["convert"]
         case = {"classes": self.ordered_classes(), "sig": sig, "recipe": recipe, "api": rng.choice(apis),
@@ -648,7 +844,8 @@ class Gen:
         if not self.pyd:
             pairs.append({"src": src_ty, "dst": src_ty})      # copy conversion: always possible without a recipe
         top_src = self._top_src
-        convertible = src_ty["t"] == "model" and top_src["kind"] != "typeddict" and top_src.get("generic") is None
+        convertible = src_ty["t"] == "model" and top_src["kind"] != "typeddict" and top_src.get("generic") is None \
+            and not top_src.get("tvars")
 
         def per_call(what):
             if what == "plain":
